@@ -2,6 +2,7 @@
 //! and the provided representative / sorting plan on concrete values.
 use crate::Ctx;
 use stateright::actor::{ActorModelState, Envelope, Id, Network, RandomChoices, Timers};
+use stateright::util::DenseNatMap;
 use stateright::{Checker, Expectation, Model, Property, Representative, Rewrite, RewritePlan};
 use std::collections::BTreeSet;
 use std::sync::Arc;
@@ -105,6 +106,24 @@ pub fn run(ctx: &mut Ctx) {
         let out: Vec<u8> = plan.reindex(&xs);
         let moved = (0..4).all(|i| out[p[i]] == xs[i]);
         ctx.check(&case, "plan-not-stable-sorting-permutation", &["KX.k_plan_is_stable_sorting_permutation", "KX.k_plan_reindex_moves_each_element_to_its_new_index"], p == want && moved, format!("p={:?} out={:?}", p, out), format!("p={:?}", want));
+    }
+    // DenseNatMap::rewrite under the sorting plan (unit DNX): the map is reindexed by the plan, `r[p[i]] == m[i]` (u8 values are
+    // their own rewrite), same length; lengths 0..=4 over values 0..3, and a map keyed by ANOTHER type (usize) is left in place
+    for len in 0..=4usize {
+        for code in 0..3u32.pow(len as u32) {
+            let v: Vec<u8> = (0..len as u32).map(|k| ((code / 3u32.pow(k)) % 3) as u8).collect();
+            let case = format!("dnm-rewrite:{:?}", v);
+            if !ctx.want(&case) { continue; }
+            let plan = RewritePlan::<Id, _>::from_values_to_sort(&v);
+            let p: Vec<usize> = (0..len).map(|i| usize::from(plan.rewrite(&Id::from(i)))).collect();
+            let xs: Vec<u8> = (0..len as u8).map(|i| 10 + i).collect();
+            let m: DenseNatMap<Id, u8> = xs.iter().copied().collect();
+            let r = m.rewrite(&plan);
+            let ok = r.len() == len && (0..len).all(|i| r.get(Id::from(p[i])) == Some(&xs[i]));
+            ctx.check(&case, "dnm-rewrite-not-reindexed-by-the-plan", &["KX.k_dnm_rewrite_moves_values_to_rewritten_keys", "DNX.dnm_rewrite.ensures.moved-to-rewritten-key-and-rewritten",
+                "DNX.dnm_rewrite.ensures.same-length", "DNX.dnm_rewrite.loop1.invariant.pairs-rewritten-so-far", "DNX.dnm_rewrite.body", "DNX.iter.loop1.invariant.pairs-so-far"],
+                ok, format!("p={:?} r={:?}", p, r), format!("r[p[i]] == {:?}[i]", xs));
+        }
     }
     // longer vectors with many ties (std's unstable sorts are stable only below their small-input threshold)
     for len in [20usize, 33, 48, 64, 100] {
